@@ -4,6 +4,7 @@ package main
 
 import (
 	"bytes"
+	"context"
 	"encoding/json"
 	"fmt"
 	"github.com/superfly/macaroon/auth"
@@ -14,6 +15,7 @@ import (
 	"runtime"
 	"runtime/debug"
 	"strings"
+	"time"
 
 	"github.com/superfly/macaroon"
 	"github.com/superfly/macaroon/bundle"
@@ -357,6 +359,65 @@ func cloneOracle(sets []*macaroon.CaveatSet) string {
 	return ""
 }
 
+// tokenCloneOracle: a Clone is the same token: it encodes to the bytes the original encodes to (whichever is encoded first,
+// also for a proof token that has not been encoded yet) and is accepted wherever the original is
+func tokenCloneOracle() string {
+	key, ka := macaroon.NewSigningKey(), macaroon.NewEncryptionKey()
+	for _, kind := range []string{"permission token", "fresh proof", "fresh proof with a caveat", "encoded proof", "fresh non-proof discharge"} {
+		for _, cloneFirst := range []bool{true, false} {
+			perm, _ := macaroon.New([]byte("k"), "https://perm.clone.test", key)
+			perm.Add(&flyio.Organization{ID: 1, Mask: resset.ActionAll})
+			perm.Add3P(ka, "https://tp.clone.test")
+			ticket, _ := perm.ThirdPartyTicket("https://tp.clone.test")
+			var m *macaroon.Macaroon
+			switch kind {
+			case "permission token":
+				m = perm
+			case "fresh non-proof discharge":
+				_, m, _ = macaroon.VerifDischargeTicket(ka, "https://tp.clone.test", ticket, false)
+			default:
+				_, m, _ = macaroon.DischargeTicket(ka, "https://tp.clone.test", ticket)
+				if kind == "fresh proof with a caveat" {
+					m.Add(&macaroon.ValidityWindow{NotBefore: 0, NotAfter: 1 << 40})
+				}
+				if kind == "encoded proof" {
+					m.Encode()
+				}
+			}
+			var me, ce []byte
+			var cp *macaroon.Macaroon
+			var err error
+			if cloneFirst {
+				if cp, err = m.Clone(); err != nil {
+					return "Clone of a " + kind + " fails: " + err.Error()
+				}
+				ce, _ = cp.Encode()
+				me, _ = m.Encode()
+			} else {
+				me, _ = m.Encode()
+				if cp, err = m.Clone(); err != nil {
+					return "Clone of a " + kind + " fails: " + err.Error()
+				}
+				ce, _ = cp.Encode()
+			}
+			if !bytes.Equal(me, ce) {
+				return fmt.Sprintf("a %s and its Clone encode differently (clone taken before the first Encode: %v): %x vs %x", kind, cloneFirst, me, ce)
+			}
+			if again, _ := cp.Encode(); !bytes.Equal(again, ce) {
+				return "the Clone of a " + kind + " encodes differently the second time"
+			}
+			if kind != "permission token" {
+				pe, _ := perm.Encode()
+				pd, _ := macaroon.Decode(pe)
+				if _, err := pd.Verify(key, [][]byte{ce}, nil); err != nil {
+					return "the Clone of a " + kind + " (a genuine discharge) does not satisfy its third-party caveat: " + err.Error()
+				}
+			}
+		}
+	}
+	return ""
+}
+
 // f8Oracle: a negative GoogleUserID has no wire form (it would come back as its absolute value): encoding must fail,
 // alone, in a set, and on a token (finding F8)
 func f8Oracle() string {
@@ -378,6 +439,7 @@ func genC11(c *ctx) {
 	unregAnyType = false
 	st := c.set.Stream("codec", "Corr.RunM", "run", 120)
 	genJSONTypes(c, st)
+	genTypedBodies(c, c.set.Stream("typed", "Corr.RunM", "run", 500))
 	if f := f8Oracle(); f != "" {
 		st.Add(&cs.Case{Coq: "(KSkip [] false 0%N)", Desc: map[string]any{"op": "encode negative GoogleUserID"}, Class: "corpus/F8", Nontrivial: true, OracleFail: f})
 	}
@@ -387,6 +449,9 @@ func genC11(c *ctx) {
 		dec, _ := macaroon.DecodeCaveats([]byte{0x90})
 		if f := cloneOracle([]*macaroon.CaveatSet{macaroon.NewCaveatSet(), {}, dec, macaroon.NewCaveatSet(&rd), three}); f != "" {
 			st.Add(&cs.Case{Coq: "(KSkip [] false 0%N)", Desc: map[string]any{"op": "CaveatSet.Clone independence"}, Class: "clone", Nontrivial: true, OracleFail: f})
+		}
+		if f := tokenCloneOracle(); f != "" {
+			st.Add(&cs.Case{Coq: "(KSkip [] false 0%N)", Desc: map[string]any{"op": "Macaroon.Clone encodes as the original"}, Class: "clone", Nontrivial: true, OracleFail: f})
 		}
 	}
 	r := c.r
@@ -673,6 +738,12 @@ func exerciseToken(b []byte) {
 	macaroon.DecodeNonce(b)
 }
 
+var (
+	exKey      = macaroon.NewSigningKey()
+	exResolver = bundle.WithKeys(map[string]macaroon.SigningKey{"": exKey, "\x00": exKey, "k": exKey}, map[string][]macaroon.EncryptionKey{"https://tp.test": {macaroon.NewEncryptionKey()}})
+	exCache    = bundle.NewVerificationCache(exResolver, time.Minute, 8)
+)
+
 func exerciseHeader(h string) {
 	if toks, err := macaroon.Parse(h); err == nil {
 		pm, _, dm, _, _ := macaroon.FindPermissionAndDischargeTokens(toks, "https://loc.test")
@@ -691,6 +762,14 @@ func exerciseHeader(h string) {
 	if b != nil {
 		b.Header()
 		b.UndischargedThirdPartyTickets()
+		// verifying: with a resolver that knows none of the key-ids, one that knows the short ones, and through a cache
+		b.Clone().Verify(context.Background(), bundle.WithKey([]byte("a key-id no token has"), exKey, nil))
+		b.Clone().Verify(context.Background(), exResolver)
+		vb := b.Clone()
+		vb.Verify(context.Background(), exCache)
+		vb.Verify(context.Background(), exCache)
+		vb.Validate(&flyio.Access{})
+		vb.Error()
 		b.Attenuate(&macaroon.ValidityWindow{NotBefore: 1, NotAfter: 2})
 		if c3, err := macaroon.NewCaveat3P(macaroon.NewEncryptionKey(), "https://tp4.test"); err == nil {
 			b.Clone().Attenuate(c3)
